@@ -1319,3 +1319,54 @@ Proof.
   - split; [reflexivity | now apply utf8_valid_spec_lemma].
   - intros H. apply utf8_valid_spec_lemma in H. congruence.
 Qed.
+
+(* ------------------------------------------------------------------ the only panic is read_uint(n > 8) *)
+Lemma lookup_id_total dbg p l id :
+  p + l < two64 -> exists o, lookup_id_ptrs dbg p l id = Ok o.
+Proof.
+  intros H. destruct (N.le_gt_cases p id) as [H1|H1].
+  - destruct (N.le_gt_cases id (p + l)) as [H2|H2].
+    + eexists. now apply lookup_id_in.
+    + eexists. apply lookup_id_out; [exact H | now right].
+  - eexists. apply lookup_id_out; [exact H | now left].
+Qed.
+
+Lemma spec_read_un_total be c w f :
+  snd (spec_read_un be c w f) <> Panic /\ snd (spec_read_un be c w f) <> OutOfFuel.
+Proof. unfold spec_read_un. destruct (len c <? N.of_nat w); cbn; split; discriminate. Qed.
+
+Lemma only_read_uint_panics_lemma dbg be root c op :
+  Inv root -> wf_alloc root -> Sub root c ->
+  (snd (step dbg be root c op) = Panic -> exists n, op = CReadUint n /\ (8 < n)%nat) /\
+  snd (step dbg be root c op) <> OutOfFuel.
+Proof.
+  intros HI HW HS. pose proof (ptr_bound _ _ HI HW HS) as [Hb1 Hb2].
+  assert (Hb3 : ptr root + len root < two64) by exact Hb2.
+  assert (Hc : ptr c + len c < two64) by lia.
+  rewrite step_spec.
+  destruct op; cbn [spec_step];
+    try (split; [intros H; exfalso; revert H|]; apply spec_read_un_total);
+    try (destruct (len c <? n); cbn [snd]; split; discriminate);
+    try (cbn [snd]; split; discriminate).
+  - destruct (Nat.ltb 8 n) eqn:E.
+    + cbn [snd]. split; [intros _; exists n; split; [reflexivity | now apply Nat.ltb_lt] | discriminate].
+    + split; [intros H; exfalso; revert H|]; apply spec_read_un_total.
+  - cbn [snd]. destruct (position b (bytes c)); split; discriminate.
+  - cbn [snd]. destruct (lookup_id_total dbg (ptr c) (len c) id Hc) as [o ->]. cbn. split; discriminate.
+  - cbn [snd]. destruct (lookup_id_total dbg (ptr root) (len root) (ptr c) Hb3) as [o ->]. cbn. split; discriminate.
+  - cbn [snd]. fold (er_offset_from dbg c root). rewrite (offset_from_lemma dbg root c HI HW HS). cbn. split; discriminate.
+  - cbn [snd]. destruct (utf8_valid (bytes c)); split; discriminate.
+  - destruct (position x00 (bytes c)); cbn [snd]; split; discriminate.
+  - destruct (size =? 1); [split; [intros H; exfalso; revert H|]; apply spec_read_un_total|].
+    destruct (size =? 2); [split; [intros H; exfalso; revert H|]; apply spec_read_un_total|].
+    destruct (size =? 4); [split; [intros H; exfalso; revert H|]; apply spec_read_un_total|].
+    destruct (size =? 8); [split; [intros H; exfalso; revert H|]; apply spec_read_un_total|].
+    cbn [snd]; split; discriminate.
+  - destruct fmt64; (split; [intros H; exfalso; revert H|]; apply spec_read_un_total).
+  - destruct fmt64; (split; [intros H; exfalso; revert H|]; apply spec_read_un_total).
+  - destruct (size =? 1); [split; [intros H; exfalso; revert H|]; apply spec_read_un_total|].
+    destruct (size =? 2); [split; [intros H; exfalso; revert H|]; apply spec_read_un_total|].
+    destruct (size =? 4); [split; [intros H; exfalso; revert H|]; apply spec_read_un_total|].
+    destruct (size =? 8); [split; [intros H; exfalso; revert H|]; apply spec_read_un_total|].
+    cbn [snd]; split; discriminate.
+Qed.
